@@ -1187,5 +1187,5 @@ package runtime
 //@   modifies everything()
 //@   exits any
 //@   assert_before_call sendResumeValues: old(t.status) == ThreadOK && $t == old(t.caller) && $exception == exception
-//@   assert_before_call ReleaseMem: ghost(wake) == 0   // the thread does not touch the runtime's accounting after handing control back
+//@   assert_before_call ReleaseBytes: ghost(wake) == 0   // the thread does not touch the runtime's accounting after handing control back
 //@   ensures ghost(wake) == 1
